@@ -84,8 +84,13 @@ Definition objpath_1d (da db : dtype) : bool :=
 Definition objpath_2d (da db : dtype) : bool := resolves_to_object da db.
 
 (* observed result against a model result whose order may be unspecified *)
+(* labels are compared by Python equality (5 == 5.0: a union with an empty float64 operand comes back as
+   float64 labels, which denote the same labels) *)
+Definition plist_eqb := list_eqb py_val_eq.
+Definition pmem (x : val) (l : list val) : bool := existsb (py_val_eq x) l.
+
 Definition set_res_eqb (r : bool * list val) (obs : list val) : bool :=
-  if fst r then vlist_eqb (snd r) obs else vlist_eqb (vsort (snd r)) (vsort obs).
+  if fst r then plist_eqb (snd r) obs else plist_eqb (vsort (snd r)) (vsort obs).
 
 (* util.union1d / intersect1d / setdiff1d called directly *)
 Definition MU1 (op : setop) (au : bool) (da db : dtype) (a b obs : list val) : bool :=
@@ -112,22 +117,22 @@ Definition MI2 (op : setop) (k : operand_kind) (same_dtypes : bool) (da db : dty
 Definition MIter (union au : bool) (da : dtype) (arrays : list (list val)) (obs : list val) : bool :=
   match arrays with
   | [] => false
-  | x :: t => vlist_eqb (vsort (M_set_iter val val_eqb val_leb val_sortable union au (objpath_1d da da) x t)) (vsort obs)
+  | x :: t => plist_eqb (vsort (M_set_iter val val_eqb val_leb val_sortable union au (objpath_1d da da) x t)) (vsort obs)
   end.
 
 (* ---- specification check: exactly the labels set algebra prescribes, each once; identical operands
    keep their order (the difference of identical operands is empty) ---- *)
 Fixpoint nodupb (l : list val) : bool :=
-  match l with [] => true | x :: t => negb (vmem x t) && nodupb t end.
+  match l with [] => true | x :: t => negb (pmem x t) && nodupb t end.
 
 Definition same_set (a b : list val) : bool :=
-  forallb (fun x => vmem x b) a && forallb (fun x => vmem x a) b.
+  forallb (fun x => pmem x b) a && forallb (fun x => pmem x a) b.
 
 (* [both_indices]: the other operand is an index too (the property speaks of operations OF INDICES; an
    ndarray / list / set operand with the same labels is not "an identical operand") *)
 Definition SI (op : setop) (both_indices : bool) (a b obs : list val) : bool :=
   nodupb obs && same_set obs (S_set val val_eqb op a b) &&
-  (if both_indices && vlist_eqb a b then vlist_eqb obs (match op with OpDiff => [] | _ => a end) else true).
+  (if both_indices && vlist_eqb a b then plist_eqb obs (match op with OpDiff => [] | _ => a end) else true).
 
 Definition SIter (union : bool) (arrays : list (list val)) (obs : list val) : bool :=
   match arrays with
